@@ -93,6 +93,7 @@ func TestMain(m *testing.M) {
 		}
 	}
 	flushAll()
+	ops.CleanMounts(scratch)
 	os.RemoveAll(ops.DefaultEnv.Scratch)
 	if ownScratch != "" {
 		os.RemoveAll(ownScratch)
@@ -443,4 +444,15 @@ var _ = rapid.Check
 func infra(t failer, msg string) {
 	t.Helper()
 	t.Fatalf("INFRA %s", msg)
+}
+
+var (
+	mountOnce sync.Once
+	mountOk   bool
+)
+
+// mountOK: this process may mount a tmpfs (ops.FSSpec.InodeLimit is usable).
+func mountOK() bool {
+	mountOnce.Do(func() { mountOk = ops.MountWorks(scratch) })
+	return mountOk
 }
